@@ -7,7 +7,7 @@ QUICK = frozenset(["quick"])
 
 class Obl:
     def __init__(self, id, engine, target, bounds, functions, tiers=BOTH, weight=1.0,
-                 timeout_quick=600, timeout_thorough=1800, params=None):
+                 timeout_quick=240, timeout_thorough=900, params=None):
         self.id = id
         self.engine = engine          # "K" (Kani harness name under dns::verif_kani) | "M" (mirsym spec)
         self.target = target
@@ -74,4 +74,87 @@ reg("C08", [
     "Packet-level accessors (id/opcode/rcode/has_flags) are plain field delegations to Header; the Packet "
     "constructor/parse path over a bare header is decided by engine M (RData drop glue defeats CBMC)",
     "RCODE::Reserved / OPCODE::Reserved carry no wire value; 'every named opcode and response code' excludes them",
+])
+
+# ------------------------------------------------------------------------------------- C18
+from spec import gen_kani as _gk
+
+reg("C18", [
+    K("C18", "type_codes", "all 65536 TYPE codes (symbolic) + TYPE_CODE consts vs IANA table", ["TYPE::from(u16)", "u16::from(TYPE)", "RR::TYPE_CODE"]),
+    K("C18", "class_codes", "all 65536 CLASS codes (symbolic)", ["CLASS::try_from"]),
+    K("C18", "qtype_codes", "all 65536 QTYPE codes (symbolic)", ["QTYPE::try_from", "u16::from(QTYPE)"]),
+    K("C18", "qclass_codes", "all 65536 QCLASS codes (symbolic)", ["QCLASS::try_from", "u16::from(QCLASS)"]),
+    K("C18", "match_qtype", "all (supported record code, question code in supported|ANY|MAILB) pairs (symbolic)",
+      ["ResourceRecord::match_qtype", "RData::type_code"]),
+    K("C18", "match_qclass", "all (class, qclass) pairs (symbolic codes)", ["ResourceRecord::match_qclass"]),
+    K("C18", "typecode_null_constructed", "all unsupported codes + 10 (symbolic) for RData::NULL / RData::Empty",
+      ["RData::type_code"]),
+    K("C18", "typecode_parsed", "RData::parse: empty RDATA for all codes (symbolic, != OPT); NULL(10), unknown 99/65280 with content",
+      ["RData::parse", "parse_rdata", "NULL::parse", "RData::type_code"], weight=20),
+] + [
+    Obl("C18.%s" % h, "K", "gen_c18::%s" % h, "minimal value of 8 RData variants each: type_code() and IANA code",
+        ["RData::type_code", "u16::from(TYPE)"]) for h in _gk.c18_variant_harnesses()
+], [
+    "AXFR/IXFR/MAILA question types are outside the property's quantifier ({TYPE(t), ANY, MAILB}) and are not asserted",
+    "record types for match_qtype are represented by RData::Empty(TYPE) (type_code() is a per-variant constant, "
+    "checked separately for a minimal value of each of the 42 variants)",
+    "Name::parse is replaced by its contract stub in typecode_parsed (contract discharged by engine M, C06)",
+])
+
+# ------------------------------------------------------------------------------------- C09 (engine K part)
+reg("C09", [
+    K("C09", "ttl_encode", "all versions x 12 named rcodes x udp sizes (symbolic)", ["OPT::encode_ttl"]),
+    K("C09", "ttl_decode", "all 2^32 TTL words x named header nibbles (symbolic)", ["OPT::extract_rcode_from_ttl"]),
+    K("C09", "opt_parse_fixed_part", "all 10-byte fixed parts (symbolic)", ["OPT::parse"]),
+], [
+    "the 16 EDNS flag bits (DO/Z) are written as zero and not exposed by the library; the property does not require them",
+    "a Reserved header nibble (11..15) carries no value in the library's RCODE enum; recombination is asserted for named nibbles",
+])
+
+# ------------------------------------------------------------------------------------- C01 (engine K part)
+reg("C01", [
+    K("C01", "peek_any_length", "8 peek functions x every buffer length 0..=16, all bytes symbolic",
+      ["header_buffer::{id,questions,answers,name_servers,additional_records,has_flags,rcode,opcode}"]),
+    K("C01", "header_any_length", "Header::parse on every slice length 0..=16, all bytes symbolic", ["Header::parse"]),
+    K("C01", "character_string_parse", "every buffer length 0..=16, every cursor 0..=len+1, all bytes symbolic",
+      ["CharacterString::parse"]),
+] + [
+    Obl("C01.%s" % h, "K", "gen_c01::%s" % h,
+        "RDATA cut n<=24 (quick) / 28 (thorough), cursor<n, all bytes symbolic; Name::parse = contract stub",
+        ["<%s as WireFormat>::parse" % h[len("rdata_"):].upper()], weight=5)
+    for h in _gk.c01_rdata_harnesses()
+], [
+    "typed RDATA parsers are entered under the only pre-condition their caller RData::parse establishes: "
+    "the message is cut at position+RDLENGTH and RDLENGTH >= 1 (cursor < len)",
+    "Name::parse is replaced by its contract stub (old<new<=len on Ok); the contract is discharged by engine M (C06.contract)",
+    "wall-clock time and allocator internals are not modelled; termination is by loop variants (engine M) and unwinding assertions (engine K)",
+])
+
+# ------------------------------------------------------------------------------------- C17 (engine K part)
+reg("C17", [
+    K("C17", "label_grammar_short", "Label::new over all byte strings of length 0..=6 (256 values per byte)", ["Label::new", "Label::is_valid_label"]),
+    K("C17", "label_grammar_long", "Label::new over all byte strings of length 60..=66", ["Label::new", "Label::is_valid_label"], weight=10),
+], [])
+
+# ------------------------------------------------------------------------------------- C19 (engine K part)
+reg("C19", [
+    K("C19", "cs_new_len", "CharacterString::new for every length 0..=300", ["CharacterString::new"]),
+    K("C19", "cs_try_from_str", "CharacterString::try_from(&str) for every length 0..=300", ["CharacterString::try_from"]),
+    K("C19", "cs_write_len_octet", "write_to length octet/content for lengths 0..=4, symbolic bytes", ["CharacterString::write_to"]),
+], [])
+
+
+def M(prop, name, spec, bounds, functions, params=None, **kw):
+    return Obl("%s.%s" % (prop, name), "M", spec, bounds, functions, params=params or {}, **kw)
+
+
+# ------------------------------------------------------------------------------------- C06
+reg("C06", [
+    M("C06", "equiv", "name_parse",
+      "every buffer of length 0..6 (quick) / 0..8 (thorough), all 256^L byte values, every start offset; loop bound 8/12",
+      ["<Name as WireFormat>::parse", "Label::new_unchecked"], params={'mode': 'equiv'}),
+], [
+    "reference = RFC 1035 4.1.4 decoder written from the RFC in mirsym/specs/name_parse.py (label octet <= 63, "
+    "pointer = 14-bit offset strictly below the pointer's own position, 01/10 label types rejected, expanded name <= 255 octets)",
+    "paths that reach the loop bound are reported as bound hits and lie outside the claim",
 ])
